@@ -1334,3 +1334,97 @@ fn create_execution_result(
         }
     }
 }
+
+/// Verification hooks (`--cfg nextest_verif`): plain-data probes for the retry backoff
+/// iterator, the exit-status classification and the leak detection loop.
+#[cfg(nextest_verif)]
+pub mod verif_executor {
+    use super::*;
+
+    /// Runs the real `BackoffIter` for `policy`, calling `next()` `take` times.
+    pub fn backoff_delays(policy: RetryPolicy, take: usize) -> Vec<Option<Duration>> {
+        let mut iter = BackoffIter::new(policy);
+        (0..take).map(|_| iter.next()).collect()
+    }
+
+    /// Runs `BackoffIter::next_delay_and_jitter` `take` times (the delays before jitter is
+    /// applied, and the jitter flag).
+    pub fn backoff_base_delays(policy: RetryPolicy, take: usize) -> Vec<(Duration, bool)> {
+        let mut iter = BackoffIter::new(policy);
+        (0..take).map(|_| iter.next_delay_and_jitter()).collect()
+    }
+
+    /// Draws `n` jittered values of `duration` through the real `BackoffIter::apply_jitter`.
+    pub fn jitter_draws(duration: Duration, n: usize) -> Vec<Duration> {
+        (0..n).map(|_| BackoffIter::apply_jitter(duration)).collect()
+    }
+
+    /// The real `create_execution_result` on a raw Unix wait status.
+    #[cfg(unix)]
+    pub fn create_execution_result_raw(
+        raw_wait_status: i32,
+        child_error: bool,
+        leaked: bool,
+    ) -> ExecutionResult {
+        use std::os::unix::process::ExitStatusExt;
+        let errors = if child_error {
+            vec![ChildFdError::ReadStdout(Arc::new(std::io::Error::other(
+                "verif: injected read error",
+            )))]
+        } else {
+            Vec::new()
+        };
+        create_execution_result(ExitStatus::from_raw(raw_wait_status), &errors, leaked)
+    }
+
+    /// Runs the real `detect_fd_leaks` loop over a caller-supplied file (for example the read
+    /// end of a pipe), sending `RunUnitRequest::OtherCancel` at the given offsets. Returns the
+    /// verdict and how long the loop ran.
+    pub async fn detect_fd_leaks_probe(
+        file: std::fs::File,
+        leak_timeout: Duration,
+        other_cancel_at: Vec<Duration>,
+    ) -> (bool, Duration) {
+        let config = ScriptConfig {
+            command: ("true".to_owned(), Vec::new()),
+            slow_timeout: None,
+            leak_timeout: None,
+            capture_stdout: false,
+            capture_stderr: false,
+            junit: Default::default(),
+        };
+        let cx = UnitContext {
+            packet: UnitPacket::SetupScript(SetupScriptPacket {
+                script_id: ScriptId::new("verif".into()).expect("valid identifier"),
+                config: &config,
+            }),
+            slow_after: None,
+        };
+        let mut child_acc = ChildAccumulator::new(ChildFds::new_combined(file.into()));
+        let mut stopwatch = crate::time::stopwatch();
+        let (req_tx, mut req_rx) = tokio::sync::mpsc::unbounded_channel();
+        let start = tokio::time::Instant::now();
+        let sender = async {
+            for at in other_cancel_at {
+                tokio::time::sleep_until(start + at).await;
+                let _ = req_tx.send(RunUnitRequest::OtherCancel);
+            }
+            // Keep the sender open for as long as the loop runs.
+            std::future::pending::<()>().await
+        };
+        let detect = detect_fd_leaks(
+            &cx,
+            0,
+            &mut child_acc,
+            None,
+            leak_timeout,
+            &mut stopwatch,
+            &mut req_rx,
+        );
+        let leaked = tokio::select! {
+            leaked = detect => leaked,
+            () = sender => unreachable!("the sender future never completes"),
+        };
+        (leaked, start.elapsed())
+    }
+}
